@@ -137,6 +137,50 @@ def knobs_for(spec: Spec, stream: str) -> docgen.Knobs:
     return kn
 
 
+def scan_features(data: bytes) -> set:
+    """ingredient features read off the package itself (used for corpus files and to
+    complement the generator's own tags)"""
+    import zipfile
+    from lxml import etree
+    out = set()
+    try:
+        z = zipfile.ZipFile(io.BytesIO(data))
+    except Exception:  # noqa: BLE001
+        return out
+    for name in z.namelist():
+        if not (name.startswith("word/") and name.endswith(".xml")):
+            continue
+        try:
+            root = etree.fromstring(z.read(name))
+        except etree.XMLSyntaxError:
+            continue
+        w = root.nsmap.get("w")
+        if not w:
+            continue
+        q = lambda t: f"{{{w}}}{t}"  # noqa: E731
+        if root.find(f".//{q('pPr')}/{q('tabs')}/{q('tab')}") is not None:
+            out.add("tabstops_in_ppr")
+        for tbl in root.iter(q("tbl")):
+            out.add("table")
+            for tc in tbl.iter(q("tc")):
+                if tc.find(f".//{q('tbl')}") is not None:
+                    out.add("nested_table")
+                if tc.find(f".//{q('sdt')}") is not None:
+                    out.add("sdt_in_table")
+                if tc.find(f".//{q('p')}//{q('p')}") is not None:
+                    out.add("nested_par_in_table")
+            for tr in tbl.iter(q("tr")):
+                if any(etree.QName(k).localname == "sdt" for k in tr if isinstance(k.tag, str)):
+                    out.add("sdt_in_table")
+            if any(etree.QName(k).localname == "sdt" for k in tbl if isinstance(k.tag, str)):
+                out.add("sdt_in_table")
+        if root.find(f".//{q('p')}//{q('p')}") is not None:
+            out.add("nested_par")
+        if root.find(f".//{q('commentRangeStart')}") is not None:
+            out.add("comment_range")
+    return out
+
+
 def eval_case(state, arg):
     prop, stream, sub = arg
     spec = SPECS[prop]
@@ -150,6 +194,7 @@ def eval_case(state, arg):
         pkg = docgen.gen_package(random.Random(sub), knobs_for(spec, stream))
         data = pkg.to_bytes()
         feats = set(pkg.features)
+    feats |= scan_features(data)
     res["key"] = hashlib.sha256(data).hexdigest()[:16] if stream == "corpus" else _pkg_key(pkg)
     per = {}
     case0, payloads = impl_pkg.model_case(data, False, True)
